@@ -6,6 +6,6 @@ namespace Aidl.Props.LrTyped
 open Aidl Aidl.Props.Typed
 
 /-- signatures, symbol types and call ranks of THIS run's generated parser -/
-def tt : TyTables := { defs := Gen.actionDefs, sigs := Gen.actionSigs, symTys := Gen.symTys, ranks := Gen.actionRanks }
+def tt : TyTables := { defs := Gen.actionDefs, sigs := Gen.actionSigs, symTys := Gen.symTys, ranks := Gen.actionRanks, reports := Gen.actionReports }
 
 end Aidl.Props.LrTyped
